@@ -313,13 +313,10 @@ func programs(c *Ctx) []*cborgen.Prog {
 func sliceSweep(c *Ctx, r *Rng) []*cborgen.Prog {
 	var ps []*cborgen.Prog
 	further := []int{257, 279, 280, 512, 535, 536, 1024, 255}
-	all := []int{23, 24, 255, 256, 257, 279, 280, 511, 512, 535, 536, 65535, 65536, 65537, 65559}
+	all := []int{23, 24, 255, 256, 257, 279, 280, 511, 512, 535, 536} // the 2-/4-byte boundary: bigSlices (Go-side only)
 	for i, kind := range cborgen.SliceKinds {
 		if c.Thorough() {
 			for j, n := range all {
-				if n > 1024 && (kind == "Strs" || kind == "Times" || kind == "Durs" || kind == "Floats32" || kind == "Floats64") {
-					continue
-				}
 				ps = append(ps, cborgen.SliceProg(r, kind, n, (i+j)%2 == 1))
 			}
 			continue
